@@ -925,6 +925,11 @@ def analyse(rec, c, k, out_path, inp_path, payload, driver=None):
     # --- C14: statistics --------------------------------------------------------------
     if rec['outcome'].get('main') == 'ok':
         _check_stats(rec, c, pr, out_path, V)
+    elif rows and not fatal and 'No MC results generated' in (rec['outcome'].get('msg') or '') and not pr['malformed'] \
+            and any('-9999.0' not in r[3] and len(r[1]) == len(c['outputs']) for r in rows) and (strict or not broken):
+        # the driver claims that no iteration produced a result while the file it wrote holds well-formed rows that count
+        V('C14', 'stats_missing', 'no_results_claimed_although_rows_exist',
+          f"the driver ended with 'No MC results generated' although the result file holds {len(rows)} well-formed rows")
     elif rows and not fatal:
         # the driver raised although rows exist (e.g. numpy's histogram of a constant column of magnitude >= 2**52):
         # no statistics are reported, so there is nothing for C14 to compare; counted, not judged
